@@ -146,6 +146,32 @@ theorem parseU64Fast_false_ok (bs : Bytes) (h : compOk bs = true) :
     · simp [hd, hne, h2, Nat.mod_eq_of_lt h2]
     · simp [hd, hne]
 
+/-! ## exclusive bounds, pairs -/
+
+theorem nextId_spec (a b : Id) (h : nextId a = some b) (x : Id) (hx : x.seq < u64Mod) : a < x ↔ b ≤ x := by
+  unfold nextId at h
+  split at h
+  · cases h; simp only [Id.lt_def, Id.le_def]; omega
+  · split at h
+    · cases h; simp only [Id.lt_def, Id.le_def]; omega
+    · cases h
+
+theorem prevId_spec (a b : Id) (h : prevId a = some b) (x : Id) (hx : x.seq < u64Mod) : x < a ↔ x ≤ b := by
+  unfold prevId at h
+  split at h
+  · cases h; simp only [Id.lt_def, Id.le_def]; omega
+  · split at h
+    · cases h; simp only [Id.lt_def, Id.le_def, u64Max, u64Mod] at *; omega
+    · cases h
+
+theorem pairsOfArgs_flatten : ∀ (args : List Bytes), args.length % 2 = 0 →
+    (pairsOfArgs args).flatMap (fun p => [p.1, p.2]) = args
+  | [], _ => rfl
+  | [_], h => by simp at h
+  | k :: v :: r, h => by
+    have := pairsOfArgs_flatten r (by simp only [List.length_cons] at h; omega)
+    simp [pairsOfArgs, this]
+
 /-! ## the halving search meets the contract on sorted lists -/
 
 /-- loop invariant of `binary_search_by`: the answer lies in `[base, base+size)`, everything before
